@@ -15,7 +15,9 @@ func (dc *ClientDnsConnection) SimSetSeq(out, in uint16) {
 
 // SimNextSeq returns the next outgoing and the next expected incoming sequence number (what a
 // worst-case spoofer would have to guess).
-func (dc *ClientDnsConnection) SimNextSeq() (out, in uint16) { return dc.out.NextSeqNo, dc.in.NextSeqNo }
+func (dc *ClientDnsConnection) SimNextSeq() (out, in uint16) {
+	return dc.out.NextSeqNo, dc.in.NextSeqNo
+}
 
 // SimUserId returns the session identifier the server assigned.
 func (dc *ClientDnsConnection) SimUserId() uint16 { return dc.userId }
